@@ -283,3 +283,16 @@ all_checkpoints = function(
   bindings=dict(B, **{'os.fspath': Handler('os.fspath', lambda ex, a, kw: a[0], 'Pathlib -> str: identity on strings'),
                       'ocp.utils.TMP_DIR_SUFFIX': Lit('.orbax-checkpoint-tmp-')}), props=('C11',))
 all_checkpoints.defaults = {'prefix': 'checkpoint_'}
+
+# ---- _safe_remove: ANY directory is removed as a tree (also a half-deleted checkpoint directory), anything else as a file ----------
+is_dir = UFn('io_isdir', [CkPath], BOOL, 'io.isdir(path)')
+_RMTREE = Effect('io.rmtree', [CkPath])
+_REMOVE = Effect('io.remove', [CkPath])
+safe_remove = function(
+  F + '::_safe_remove', params=[('path', CkPath)],
+  ensures=["ncalls('io.rmtree') == (1 if io_isdir(path) else 0) and ncalls('io.remove') == (0 if io_isdir(path) else 1)",
+           "implies(ncalls('io.rmtree') > 0, call_args('io.rmtree')[0] == path)",
+           "implies(ncalls('io.remove') > 0, call_args('io.remove')[0] == path)"],
+  bindings={'io.isdir': is_dir, 'io.rmtree': _RMTREE, 'io.remove': _REMOVE,
+            '_is_orbax_checkpoint': UFn('is_orbax_checkpoint', [CkPath], BOOL, '_is_orbax_checkpoint(path): marker files present (NOT the same as being a directory)')},
+  modifies=[], props=('C11',))
